@@ -85,9 +85,20 @@ def stepRun (f : Files) (owners : Owners) (injected : Bool) (progText obs : Stri
     return (newFiles, owners)
   if !readable then throw "ReadCache of an incomplete cache did not fail"
   -- (ii) rows are those of the program without the cache (the cache is transparent)
-  match C01.checkProgram prog results [] body (lenient := true) with
+  -- (the counted Maps also report through user counter 0: judged below against the calls, not by the reference semantics)
+  let bodyNoCtr := match body.splitOn " | counters=" with
+    | [a, b] => a ++ " | counters=0,0,0" ++ (((b.splitOn " | ").drop 1).foldl (fun acc x => acc ++ " | " ++ x) "")
+    | _ => body
+  match C01.checkProgram prog results [] bodyNoCtr (lenient := true) with
   | .error e => throw e
   | .ok _ => pure ()
+  if !injected && !afterFailure then
+    -- (ii') the result's metrics scope reports exactly the increments that were executed (each counted Map call adds 1)
+    let total := ((field obs "calls").splitOn "," |>.filterMap fun t => match t.splitOn ":" with
+      | [_, c] => some (toNat! c) | _ => none).foldl (· + ·) 0
+    let reported := toNat! ((((body.splitOn " | counters=").getD 1 "").splitOn ",").headD "0")
+    if reported != total then
+      throw s!"the result's scope reports {reported} increments of the counted Maps, {total} were executed"
   if !injected && !hasHead p then
     -- (iii) the upstream of a cached shard is not executed: call counts of the counted maps
     let dem := demand f p (fun i => (env.getD i default).rows.length)
